@@ -6,7 +6,7 @@
   language).  Hence, by `probabilityDet_eq_prob` (C04), `probability = prob`, and the mass
   theorems of C17 can be stated on what the Python computes.
 
-  Second part: the total mass.  `mass (inst G tbl) (instTags tags tbl) k nt = mass G tags k nt`
+  Second part: the total mass.  `mass (inst fx G tbl) (instTags fx tags tbl) k nt = mass G tags k nt`
   for every depth budget `k` and non-terminal: no probability mass is lost or created by
   `instantiate_constants`; and the enumeration of the instantiated grammar is the set of the
   instantiations of the enumeration of the template grammar.
@@ -108,19 +108,19 @@ theorem probability_eq_prob (G : TT S Unit) (tags : Tags S Unit) (t : Prog) :
 
 /-! ### total mass -/
 
-theorem rowsNodup_of_rulesOK {tbl : Tbl} {G : TT S Unit} (h : rulesOK tbl G.rules = true) :
+theorem rowsNodup_of_rulesOK {fx : Fix} {tbl : Tbl} {G : TT S Unit} (h : rulesOK fx tbl G.rules = true) :
     RowsNodup G :=
   fun _ _ hl => (rowOK_iff.mp (rulesOK_row h hl)).1
 
-theorem lookup_inst {tbl : Tbl} {G : TT S Unit} (h : rulesOK tbl G.rules = true) {nt : NT S Unit}
+theorem lookup_inst {fx : Fix} {tbl : Tbl} {G : TT S Unit} (h : rulesOK fx tbl G.rules = true) {nt : NT S Unit}
     {rs : AList Sym (List (Ty × S) × Unit)} (hl : AList.lookup nt G.rules = some rs) :
-    AList.lookup nt (inst G tbl).rules = some (rs.flatMap (expand tbl (fun v _ => v))) := by
+    AList.lookup nt (inst fx G tbl).rules = some (rs.flatMap (expand fx tbl (fun v _ => v))) := by
   unfold inst
   simp only [lookup_instRules, hl, Option.map_some]
   rw [instRow_eq_flatMap (rulesOK_row h hl)]
 
-theorem rowsNodup_inst {tbl : Tbl} {G : TT S Unit} (h : rulesOK tbl G.rules = true) :
-    RowsNodup (inst G tbl) := by
+theorem rowsNodup_inst {fx : Fix} {tbl : Tbl} {G : TT S Unit} (h : rulesOK fx tbl G.rules = true) :
+    RowsNodup (inst fx G tbl) := by
   intro nt rs hl
   cases hl0 : AList.lookup nt G.rules with
   | none =>
@@ -132,29 +132,29 @@ theorem rowsNodup_inst {tbl : Tbl} {G : TT S Unit} (h : rulesOK tbl G.rules = tr
     cases hl
     exact keys_flatMap_nodup (rulesOK_row h hl0)
 
-theorem produces_self {tbl : Tbl} {P : Sym} (h : slot? tbl P = none) : produces tbl P P := by
+theorem produces_self {fx : Fix} {tbl : Tbl} {P : Sym} (h : slot? fx tbl P = none) : produces fx tbl P P := by
   unfold produces; rw [h]
 
-theorem weight_inst_of_produces {tbl : Tbl} {tags : Tags S Unit} (h : rulesOK tbl tags = true)
-    (nt : NT S Unit) {P k : Sym} (hP : okKey tbl P) (hp : produces tbl P k) :
-    weight (instTags tags tbl) nt k =
-      (match slot? tbl P with
+theorem weight_inst_of_produces {fx : Fix} {tbl : Tbl} {tags : Tags S Unit} (h : rulesOK fx tbl tags = true)
+    (nt : NT S Unit) {P k : Sym} (hP : okKey fx tbl P) (hp : produces fx tbl P k) :
+    weight (instTags fx tags tbl) nt k =
+      (match slot? fx tbl P with
         | some vals => weight tags nt P / (vals.length : Rat)
         | none => weight tags nt P) := by
   unfold weight
   rw [← tag?_eq_tagOf, ← tag?_eq_tagOf, tag?_inst_of_produces h nt hP hp]
   cases tag? tags nt P with
-  | none => cases slot? tbl P <;> simp
-  | some v => cases slot? tbl P <;> simp
+  | none => cases slot? fx tbl P <;> simp
+  | some v => cases slot? fx tbl P <;> simp
 
 /-- **no mass is lost**: for every depth budget and non-terminal the total probability of the
     programs of the instantiated grammar is the total probability of the programs of the
     template grammar -/
-theorem mass_inst (tbl : Tbl) (G : TT S Unit) (tags : Tags S Unit)
-    (hG : rulesOK tbl G.rules = true) (hT : rulesOK tbl tags = true)
-    (hne : rulesNonEmpty tbl G.rules = true) :
+theorem mass_inst (fx : Fix) (tbl : Tbl) (G : TT S Unit) (tags : Tags S Unit)
+    (hG : rulesOK fx tbl G.rules = true) (hT : rulesOK fx tbl tags = true)
+    (hne : rulesNonEmpty fx tbl G.rules = true) :
     ∀ (k : Nat) (nt : NT S Unit),
-      PS.G.mass (inst G tbl) (instTags tags tbl) k nt = PS.G.mass G tags k nt := by
+      PS.G.mass (inst fx G tbl) (instTags fx tags tbl) k nt = PS.G.mass G tags k nt := by
   intro k
   induction k with
   | zero => intro nt; simp [PS.G.mass, lang]
@@ -162,7 +162,7 @@ theorem mass_inst (tbl : Tbl) (G : TT S Unit) (tags : Tags S Unit)
     intro nt
     cases hl : AList.lookup nt G.rules with
     | none =>
-      have hl' : AList.lookup nt (inst G tbl).rules = none := by
+      have hl' : AList.lookup nt (inst fx G tbl).rules = none := by
         unfold inst; simp only [lookup_instRules, hl, Option.map_none]
       simp [PS.G.mass, lang, hl, hl']
     | some rs =>
@@ -173,14 +173,14 @@ theorem mass_inst (tbl : Tbl) (G : TT S Unit) (tags : Tags S Unit)
       intro e he
       have hrow := rulesOK_row hG hl
       have hmem : e.1 ∈ AList.keys rs := List.mem_map.mpr ⟨e, he, rfl⟩
-      have hok : okKey tbl e.1 := (rowOK_iff.mp hrow).2 e.1 hmem
+      have hok : okKey fx tbl e.1 := (rowOK_iff.mp hrow).2 e.1 hmem
       have hnz := rulesNonEmpty_row hne hl
       unfold rowNonEmpty at hnz
       rw [List.all_eq_true] at hnz
       have hnz' := hnz e.1 hmem
       simp only [ih]
       unfold expand
-      cases hs : slot? tbl e.1 with
+      cases hs : slot? fx tbl e.1 with
       | none =>
         simp only [List.map_cons, List.map_nil, List.sum_cons, List.sum_nil, Rat.add_zero]
         rw [weight_inst_of_produces hT nt hok (produces_self hs), hs]
@@ -188,10 +188,10 @@ theorem mass_inst (tbl : Tbl) (G : TT S Unit) (tags : Tags S Unit)
         rw [hs] at hnz'
         have hv : vals ≠ [] := by
           intro e'; subst e'; cases hnz'
-        have hw : ∀ v ∈ vals, weight (instTags tags tbl) nt (Sym.const e.1.ty v) =
+        have hw : ∀ v ∈ vals, weight (instTags fx tags tbl) nt (Sym.const e.1.ty v) =
             weight tags nt e.1 / (vals.length : Rat) := by
           intro v hv'
-          have hp : produces tbl e.1 (Sym.const e.1.ty v) := by
+          have hp : produces fx tbl e.1 (Sym.const e.1.ty v) := by
             unfold produces; rw [hs]; exact ⟨v, hv', rfl⟩
           rw [weight_inst_of_produces hT nt hok hp, hs]
         simp only [List.map_map]
@@ -229,17 +229,17 @@ end
 
 /-- the programs of at most `k` levels of the instantiated grammar are exactly the
     instantiations of the programs of at most `k` levels of the template grammar -/
-theorem mem_lang_inst (tbl : Tbl) (G : TT S Unit) (h : rulesOK tbl G.rules = true) (k : Nat)
+theorem mem_lang_inst (fx : Fix) (tbl : Tbl) (G : TT S Unit) (h : rulesOK fx tbl G.rules = true) (k : Nat)
     (nt : NT S Unit) (t' : Prog) :
-    t' ∈ lang (inst G tbl) k nt ↔ ∃ t ∈ lang G k nt, isInst tbl t t' = true := by
+    t' ∈ lang (inst fx G tbl) k nt ↔ ∃ t ∈ lang G k nt, isInst tbl t t' = true := by
   rw [mem_lang_iff _ (rowsNodup_inst h)]
   constructor
   · rintro ⟨hg, hd⟩
-    obtain ⟨g, i⟩ := gen_inst_templ tbl G h t' nt hg
+    obtain ⟨g, i⟩ := gen_inst_templ fx tbl G h t' nt hg
     refine ⟨templ tbl t', (mem_lang_iff G (rowsNodup_of_rulesOK h) k _ nt).mpr ⟨g, ?_⟩, i⟩
     rw [← depth_of_isInst tbl _ _ i]; exact hd
   · rintro ⟨t, ht, i⟩
     obtain ⟨g, hd⟩ := (mem_lang_iff G (rowsNodup_of_rulesOK h) k t nt).mp ht
-    exact ⟨gen_inst_of_isInst tbl G h t t' nt g i, by rw [depth_of_isInst tbl _ _ i]; exact hd⟩
+    exact ⟨gen_inst_of_isInst fx tbl G h t t' nt g i, by rw [depth_of_isInst tbl _ _ i]; exact hd⟩
 
 end PS.IC
